@@ -2,16 +2,18 @@
 // directory's entries, and fails when a block of the entity is unavailable.
 //
 // Bounds (quick | thorough):
-//   files: builder width 2|{2,3}, "size-4", chunk counts 1..9 | 1..20, plus boxo balanced/trickle
-//     files with protobuf leaves (n in {3,7});
-//   HAMTs: fanouts {8,256} | {8,16,64,256,1024} with 120 | 1500 random + colliding names whose
-//     entries point at multi-block files, at a plain directory and at another HAMT; also a plain
-//     directory with such entries (nothing may be requested).
-//   operations: the "unixfs-preload" reifier, file.NewUnixFSFileWithPreload /
-//     hamt.NewUnixFSHAMTShardWithPreload, and a WalkMatching with MatchUnixFSEntitySelector +
-//     BytesConsumingMatcher. Requested set must equal the entity's blocks below its root (root is
-//     handed in as a node). Then for EVERY single block of the entity made unavailable each
-//     operation must return an error.
+//
+//	files: builder width 2|{2,3}, "size-4", chunk counts 1..9 | 1..20, plus boxo balanced/trickle
+//	  files with protobuf leaves (n in {3,7});
+//	HAMTs: fanouts {8,256} | {8,16,64,256,1024} with 120 | 1500 random + colliding names whose
+//	  entries point at multi-block files, at a plain directory and at another HAMT; also a plain
+//	  directory with such entries (nothing may be requested).
+//	operations: the "unixfs-preload" reifier, file.NewUnixFSFileWithPreload /
+//	  hamt.NewUnixFSHAMTShardWithPreload, and a WalkMatching with MatchUnixFSEntitySelector +
+//	  BytesConsumingMatcher. Requested set must equal the entity's blocks below its root (root is
+//	  handed in as a node). Then for EVERY single block of the entity made unavailable each
+//	  operation must return an error.
+//
 // Oracle: vp's protowire walk over the stored blocks.
 package c06
 
